@@ -98,6 +98,19 @@ func C04(c *Ctx) {
 	ev := &core.Evaluator{P: c.P}
 	fd, pk := c.P.DeclOf(setFSM)
 	edges, problems := ev.FSMEvents(pk, fd.Body)
+	if len(edges) == 0 {
+		// the table may be produced by a function of the package that setFSM calls (transactionFSMEvents())
+		for _, call := range core.Calls(setFSM) {
+			g := core.StaticCallee(call)
+			if g == nil || core.PkgOf(g) != core.PkgOf(setFSM) || !strings.HasSuffix(g.Signature.Results().String(), "fsm.Events)") {
+				continue
+			}
+			if gd, gpk := c.P.DeclOf(g); gd != nil && gd.Body != nil {
+				e2, p2 := ev.FSMEvents(gpk, gd.Body)
+				edges, problems = append(edges, e2...), append(problems, p2...)
+			}
+		}
+	}
 	for _, p := range problems {
 		r.Unknown("R04.1", "setFSM table: "+p, c.P.Pos(fd.Pos()), p)
 	}
